@@ -519,8 +519,9 @@ def C17(tier, seed):
             for via in ("display", "toml"):
                 for how in ("mf", "builder"):
                     steps.append({"op": "RoundTrip", "spec": r["spec"], "via": via, "how": how})
-        for i in rng.sample(range(len(specs)), min(40 if quick else 400, len(specs))):
-            steps.append({"op": "RoundTrip", "spec": specs[i]["spec"], "via": "specfile", "how": "mf"})
+        # specfile round trips create inotify watchers (limited per user): all in ONE scenario, hence one process
+        sf_steps = [{"op": "RoundTrip", "spec": specs[i]["spec"], "via": "specfile", "how": "mf"}
+                    for i in rng.sample(range(len(specs)), min(40 if quick else 300, len(specs)))]
         for i in range(300 if quick else 5000):
             s = rand_spec(rng, p_re=0)
             steps.append({"op": "RoundTrip", "spec": s, "via": rng.choice(["display", "toml"]), "how": rng.choice(["mf", "builder"])})
@@ -532,6 +533,7 @@ def C17(tier, seed):
         batch = 50
         scens = [{"kind": "text", "origin": "tlc+rand", "targets": PLAIN_MODS, "steps": steps[i:i + batch]}
                  for i in range(0, len(steps), batch)]
+        scens.append({"kind": "text", "origin": "tlc:specfile", "targets": PLAIN_MODS, "steps": sf_steps})
         scens += [dict(s, origin="regress:" + str(s.get("origin", ""))) for s in _regress("C17.ndjson")]
         scens = _number(scens)
         res = _run(pid, mon, scens, wd)
